@@ -625,8 +625,13 @@ func genPrimAead(r *rand.Rand, n int) []string {
 				ns = r.Intn(20)
 			}
 		}
-		if r.Intn(10) == 0 { // the nonce lengths of the sibling constructions: 64-bit ChaCha nonces, XChaCha, the other CCM family, GCM
-			ns = []int{8, 24, 7, 13, 12, 16, 0}[r.Intn(7)]
+		if i%10 == 6 { // the nonce lengths of the sibling constructions: 64-bit ChaCha nonces, XChaCha, the other CCM family, GCM — in turn
+			ns = []int{24, 8, 7, 13, 12, 16, 0}[(i/10/13)%7]
+		}
+		if i%10 == 6 { // … for every algorithm in turn
+			all := append(append(append([]int{}, gcmAlgs...), ccmAlgs...), iana.AlgorithmChaCha20Poly1305)
+			alg = all[(len(all)-1+i/10)%len(all)] // (ChaCha20/Poly1305 first)
+			ks = keySizeOf(alg)
 		}
 		big := i%25 == 0
 		k, nonce := randBytes(r, ks), randBytes(r, ns)
